@@ -123,3 +123,7 @@ V('C17', 'belief-kept-on-stateless-reply', 'edb/server/compiler_pool/pool.py', '
   '            worker._last_pickled_state = result[1]\n', '            if result[1] is not None:\n                worker._last_pickled_state = result[1]\n', 'C17.R5', 'AbstractPool.compile:belief-follows-every-reply')
 V('C17', 'mt-diff-commit-only-with-dbs', 'edb/server/compiler_pool/multitenant_worker.py', 'edb.server.compiler_pool.multitenant_worker.__sync__',
   '                if updates:\n                    client_schema = client_schema._replace(', '                if dbs is not client_schema.dbs:\n                    client_schema = client_schema._replace(', 'C17.R2', '__sync__:commits=global_schema')
+V('C17', 'server-belief-reread-after-await', 'edb/server/compiler_pool/server.py', 'edb.server.compiler_pool.server.MultiSchemaPool._call_for_client',
+  '            status, *data = pickle.loads(resp)\n            if status == 0:\n', '            status, *data = pickle.loads(resp)\n            client_schema = self._clients.get(client_id, client_schema)\n            if status == 0:\n', 'C17.R6', '_call_for_client:belief')
+V('C17', 'neg-server-belief-renamed-local', 'edb/server/compiler_pool/server.py', 'edb.server.compiler_pool.server.MultiSchemaPool._call_for_client',
+  '            status, *data = pickle.loads(resp)\n            if status == 0:\n', '            status, *data = pickle.loads(resp)\n            nclients = len(self._clients)\n            if status == 0 and nclients >= 0:\n', None)
